@@ -15,9 +15,11 @@ check driver reports that as a broken tie (VIOLATION ... no-failing-input-found
 unless the oracle finds an input).
 """
 import ast
+import glob
 import json
 import os
 import re
+import subprocess
 import sys
 
 REPO = os.environ.get("WOODPILE_REPO", "/repo")
@@ -88,6 +90,73 @@ def const_expr(src, name):
     return m.group(1)
 
 
+def registry_crates(names):
+    """Source directories of the registry crates `names` exactly as /repo/vouched_time/Cargo.toml resolves
+    them: asked of cargo itself (`cargo metadata --offline`, which reads Cargo.lock and the local registry /
+    vendor directory, no network); fallback: version from Cargo.lock + the registry/vendor source trees."""
+    found = {}
+    feats = {}
+    try:
+        # --locked: cargo must never (re)write a lock file inside the repository under test
+        p = subprocess.run(["cargo", "metadata", "--offline", "--locked", "--format-version", "1", "--manifest-path",
+                            os.path.join(REPO, "vouched_time", "Cargo.toml")],
+                           stdout=subprocess.PIPE, stderr=subprocess.DEVNULL, timeout=120,
+                           env=dict(os.environ, CARGO_NET_OFFLINE="true"))
+        if p.returncode == 0:
+            meta = json.loads(p.stdout.decode())
+            ids = {}
+            for pk in meta.get("packages", []):
+                if pk["name"] in names:
+                    found[pk["name"]] = (pk["version"], os.path.dirname(pk["manifest_path"]))
+                    ids[pk["id"]] = pk["name"]
+            for node in (meta.get("resolve") or {}).get("nodes", []):
+                if node["id"] in ids:
+                    feats[ids[node["id"]]] = node.get("features", [])
+    except (OSError, ValueError, subprocess.TimeoutExpired):
+        pass
+    missing = [n for n in names if n not in found]
+    if missing:
+        here = os.path.dirname(os.path.abspath(__file__))
+        lock = ""
+        for cand in (os.path.join(REPO, "Cargo.lock"), os.path.join(here, "..", "harness", "Cargo.lock")):
+            if os.path.exists(cand):  # a scratch worktree has no lock file; the harness builds with its own copy
+                with open(cand, "r", encoding="utf-8") as f:
+                    lock = f.read()
+                break
+        home = os.environ.get("CARGO_HOME", os.path.expanduser("~/.cargo"))
+        for n in missing:
+            m = re.search(r'name = "%s"\nversion = "([^"]+)"' % re.escape(n), lock)
+            if not m:
+                raise KeyError("crate %s in Cargo.lock" % n)
+            cands = glob.glob(os.path.join(home, "registry", "src", "*", "%s-%s" % (n, m.group(1))))
+            cands += glob.glob(os.path.join(REPO, "vendor", n)) + glob.glob(os.path.join(REPO, "vendor", "%s-%s" % (n, m.group(1))))
+            if not cands:
+                raise KeyError("source of crate %s %s (not available offline)" % (n, m.group(1)))
+            found[n] = (m.group(1), cands[0])
+    return found, feats
+
+
+def named_u64(name):
+    """raffle::constparse::named_u64: the first 8 bytes of the name, little endian."""
+    b = name.encode("ascii")
+    if len(b) < 8:
+        raise ValueError("named_u64 needs 8 bytes: %r" % name)
+    return sum(b[i] << (8 * i) for i in range(8))
+
+
+def raffle_named(src, const, out, key):
+    """`pub const <const>: u64 = named_u64("........");` -> the name's bytes and the value."""
+    expr = const_expr(src, const)
+    m = re.fullmatch(r'\s*named_u64\(\s*"([ -~]{8,})"\s*\)\s*', expr)
+    if m:
+        out[key + "Name"] = list(m.group(1).encode("ascii")[:8])
+        out[key] = named_u64(m.group(1))
+    else:
+        # a plain integer expression: keep the value, no name (the name tie in Props/C14 then fails, by design)
+        out[key + "Name"] = []
+        out[key] = ev(expr, {}) % (1 << 64)
+
+
 def main(out_path):
     out = {}
     # ---- hcobs
@@ -150,6 +219,42 @@ def main(out_path):
     nf = strip_comments(read("vouched_time/src/nfs_voucher.rs"))
     out["defaultLeewayMs"] = ev(const_expr(nf, "DEFAULT_LEEWAY_MS").replace("crate::", ""),
                                 {"MAX_FORWARD_DISCREPANCY_MS": out["maxForwardMs"]})
+
+    # ---- the raffle and time crates vouched_time resolves to (registry sources, read offline)
+    crates, feats = registry_crates(["raffle", "time"])
+
+    def crate_src(name, rel):
+        with open(os.path.join(crates[name][1], rel), "r", encoding="utf-8") as f:
+            return strip_comments(f.read())
+
+    chk = crate_src("raffle", "src/check.rs")
+    vch = crate_src("raffle", "src/vouch.rs")
+    raffle_named(chk, "WANTED_SUM", out, "raffleWantedSum")
+    raffle_named(chk, "CHECKING_TAG", out, "raffleCheckingTag")
+    raffle_named(vch, "VOUCHING_TAG", out, "raffleVouchingTag")
+    # the arithmetic itself, as a fingerprint of shape: the model (Woodpile.Raffle.check / vouchRaw) is this expression
+    flat = re.sub(r"\s+", "", chk)
+    out["raffleCheckShape"] = int(
+        "voucher.wrapping_add(unoffset).wrapping_mul(unscale^CHECKING_TAG)" in flat
+        and "unvouched_value.wrapping_add(expected)==WANTED_SUM" in flat)
+    out["raffleVouchShape"] = int("value.wrapping_add(offset).wrapping_mul(scale^VOUCHING_TAG)" in re.sub(r"\s+", "", vch)
+                                  or ".wrapping_add(offset).wrapping_mul(scale^VOUCHING_TAG)" in re.sub(r"\s+", "", vch))
+    # time: the calendar range behind PrimitiveDateTime::MIN / MAX (years, without the large-dates feature)
+    dt = crate_src("time", "src/date.rs")
+    large = "large-dates" in feats.get("time", [])
+
+    def year_const(name):
+        m = re.search(r"const\s+" + name + r"\s*:\s*i32\s*=\s*if\s+cfg!\(feature\s*=\s*\"large-dates\"\)\s*\{\s*(-?[\d_]+)\s*\}\s*else\s*\{\s*(-?[\d_]+)\s*\}",
+                      dt)
+        if not m:
+            raise KeyError("time::date::" + name)
+        return int((m.group(1) if large else m.group(2)).replace("_", ""))
+
+    ymin, ymax = year_const("MIN_YEAR"), year_const("MAX_YEAR")
+    if ymin > 0 or ymax < 0:
+        raise ValueError("unexpected year range %d..%d" % (ymin, ymax))
+    out["timeMinYearNeg"] = -ymin
+    out["timeMaxYear"] = ymax
 
     lines = [
         "-- GENERATED by tools/extract_consts.py from the Rust sources under /repo.  Do not edit.",
